@@ -22,6 +22,9 @@ REPO = os.environ.get("VERIF_REPO", "/repo")
 NPROC = int(os.environ.get("VERIF_JOBS", "16"))
 
 
+KNOWN_ENABLED = True  # --no-known / reproducer runs switch the known-finding classes off
+
+
 class HarnessError(Exception):
     pass
 
@@ -258,7 +261,7 @@ def run_hypothesis(acc: Acc, strategy, body, n: int, seed: int) -> None:
 
 def process(mod, acc: Acc, kind: str, case, layer: str, timeout_s: float | None = None, isolate=True):
     """One case through known-class exclusion, isolation and the module's evaluate()."""
-    known = mod.is_known(kind, case) if hasattr(mod, "is_known") else None
+    known = mod.is_known(kind, case) if KNOWN_ENABLED and hasattr(mod, "is_known") else None
     if known:
         acc.excluded_known[known] += 1
         return
